@@ -50,6 +50,12 @@ def expr_ast(x):
         return ('call', int(x[1], 16), [expr_ast(a) for a in x[2:]])
     if k == 'cond':
         return ('cond', expr_ast(x[1]), expr_ast(x[2]), expr_ast(x[3]))
+    if k == 'arr':
+        return ('arr', [expr_ast(a) for a in x[1:]])
+    if k == 'at':
+        return ('at', expr_ast(x[1]), expr_ast(x[2]))
+    if k == 'len':
+        return ('len', expr_ast(x[1]))
     raise ValueError(x)
 
 
@@ -137,6 +143,12 @@ def node_at(body, path):
                 n = n[2][k]
             elif t == 'cond':
                 n = n[1 + k]
+            elif t == 'arr':
+                n = n[1][k]
+            elif t == 'at':
+                n = n[1 + k]
+            elif t == 'len':
+                n = n[1]
             else:
                 raise ValueError((t, k))
     chain.append((n[0], n))
@@ -169,6 +181,12 @@ def consumer(chain, path):
         return 'call-arg'
     if pk == 'cond':
         return 'cond-test' if k == 0 else 'cond-branch'
+    if pk == 'at':
+        return 'at-array' if k == 0 else 'at-index'
+    if pk == 'len':
+        return 'array-length-arg'
+    if pk == 'arr':
+        return 'array-element'
     if pk == 'if':
         return 'if-cond'
     if pk == 'while':
@@ -221,6 +239,16 @@ def _propagate(chain, path):
             return 'call-arg-type-unchecked'
         if pk == 'cond':
             return 'cond-test-unchecked' if k == 0 else 'cond-branch-unchecked'
+        if pk == 'at':
+            if k == 0:
+                i -= 1               # (at UNKNOWN i) has no known element type: unknown again
+                continue
+            return 'at-index-unchecked'
+        if pk == 'len':
+            return 'array-length-arg-unchecked'
+        if pk == 'arr':
+            # an element of UNKNOWN type is compared with nothing: the literal is an array whatever its elements are
+            return 'array-element-type-unchecked'
         if pk == 'print':
             return 'print-arg-unchecked'
         if pk == 'expr':
@@ -233,7 +261,7 @@ def _propagate(chain, path):
     return 'unclassified-top'
 
 
-def root_cause(rule, orig_fn, path):
+def root_cause(rule, orig_fn, path, arg=0):
     """Why would the real type checker let this mutant through?  The name of the unchecked place (a key suffix of the
     known findings), or None when every construct on the way compares types and the mutant must be refused."""
     if rule in SILENT:
@@ -253,6 +281,21 @@ def root_cause(rule, orig_fn, path):
         oc = opclass(node)
         if oc in OP_ABSORB:
             return OP_ABSORB[oc]
+        if oc == 'at':
+            # Mutate.rw_operand: odd arg -> the index becomes a bool/string literal, even -> the array operand an int/bool literal
+            return 'at-index-unchecked' if arg % 2 == 1 else 'at-array-operand-unchecked'
+        if oc == 'len':
+            return 'array-length-arg-unchecked'
+        if oc == 'arr':
+            # the first element becomes a bool/string literal.  A one-element literal is then an array of bools/strings, which
+            # passes for array<int> everywhere.  With more elements the checker prints "Array elements must all have the same
+            # type" and types the literal `unknown` -- except under `at`, which takes the type of the FIRST element (the wrong
+            # literal's): in both cases what happens next is decided by the consumers above
+            if len(node[1]) == 1:
+                return 'array-element-type-unchecked'
+            if len(chain) >= 2 and chain[-2][0] == 'at' and path[-1] == 0:
+                return _propagate(chain[:-1], path[:-1])
+            return _propagate(chain, path)
         return _propagate(chain, path)
     if rule in ('arity+', 'arity-', 'unknown-fn', 'unknown-name'):
         return _propagate(chain, path)
@@ -326,7 +369,7 @@ INTERNAL_MARKS = [
     ('verify-failed', 'bytecode verification failed'),
 ]
 RUNTIME_INTERNAL = re.compile(r'runtime error: (.*)')
-DOCUMENTED_RUNTIME = ('Assertion failed', 'assertion', 'Array index out of bounds', 'index out of', 'Call depth', 'call depth',
+DOCUMENTED_RUNTIME = ('Assertion failed', 'assertion', 'Array index out of bounds', 'index out of', 'out of bounds', 'Call depth', 'call depth',
                       'Stack overflow: call depth', 'instruction budget exhausted', 'Division by zero', 'division by zero')
 
 
@@ -378,6 +421,8 @@ def internal_failure(tool, ob):
             return 'vm-runtime:' + re.sub(r'\d+', 'N', m.group(1))[:50]
     if tool == 'nanoc' and ob.get('ran'):
         r = ob['ran']
+        if r['rc'] == -6 and 'Index out of bounds' in r.get('err', ''):
+            return None                  # the runtime's index assertion: the documented out-of-bounds fault
         if r['rc'] is not None and r['rc'] < 0 and r['rc'] != -9 and -r['rc'] not in (8,):      # SIGFPE = documented division fault
             return 'native-signal%d' % -r['rc']
     return None
